@@ -278,6 +278,13 @@ fn knobs_for(prop: Prop, sub: u64, tier: Tier, rng: &mut Rng) -> Knobs {
                 k.n_virtual = (0, 0);
                 k.override_pct = 80;
             }
+            if matches!(sub % 10, 1 | 5) {
+                // round 10: virtual signals next to clock rows on a device that overrides the
+                // write-only call - the mid-clock writes stay write-only whatever the test declares
+                k.n_virtual = (1, 2);
+                k.override_pct = 80;
+                k.w_in_c = k.w_in_c.max(3);
+            }
         }
         Prop::C03 => {
             k.n_out = (1, 4);
